@@ -101,6 +101,9 @@ SIG_TORN = "interrupted-offset-table-build-trusted"  # F11 (a)
 SIG_STALE = "stale-offset-table-trusted"  # F11 (b)
 SIG_PARTIAL = "interrupted-decompression-output-accepted"
 SIG_ZST = "truncated-zst-archive-accepted"
+# whether these two are hit depends on where the crash injected into the earlier run happened to cut a write: is_excluded (a predicate on the
+# initial state) cannot tell, so a hit outside the static region is counted as known instead of being reported as a different violation
+INEXACT_REGIONS = (SIG_TORN, SIG_PARTIAL)
 
 _SERVER = None
 _URLLIB3_PROXY = None
@@ -554,6 +557,16 @@ def _case(draw):
         "probe_lines": sorted(set(draw(st.lists(st.integers(0, 1024), max_size=3)))),
         "tools": draw(_weighted(("default", 5), ("shims", 2), ("none", 2))),
     }
+    if big and off[0] in ("stale", "truncated") and draw(st.integers(0, 2)) == 0:
+        # template: a leftover offset table next to a document file that this run has to produce again from a good local archive
+        case["format"] = fmt if fmt != "plain" else draw(st.sampled_from(disk.FORMATS))
+        case["disk"]["archive"] = ["correct"]
+        case["disk"]["doc"] = draw(st.sampled_from([["missing"], ["missing"], ["truncated", 512], ["longer", 2]]))
+        if case["disk"]["doc"][0] != "missing":
+            case["decl"]["uncompressed"] = "right"
+        case["earlier"] = None
+        case["offline"] = draw(st.booleans())
+        case["template"] = "leftover-table-and-fresh-decompression"
     return _normalise(case)
 
 
@@ -716,8 +729,13 @@ def _check_offsets(env, obs, doc_path, content, before, after):
         f"skip_lines({bad[0]}) leaves the reader at {bad[1]}, reading {bad[0]} lines one by one ends at byte {bad[2]}; "
         f"offset table ({'written by this run' if rebuilt else 'pre-existing, not rebuilt'}): {table[:80]!r}"
     )
+    doc_replaced = not (doc_path in before and before[doc_path][1:] == after[doc_path][1:])
     if rebuilt:
         obs.violation("offset-table-wrong", msg)
+    elif doc_replaced and env.case["format"] not in disk.TAR_FAMILY:
+        # this run wrote the document file (download / decompression) and still trusts a table that was there before: not the known
+        # weakness (a table that is not older than an *unchanged* document file); extracted tar members keep their old mtime (known)
+        obs.violation("offset-table-survives-new-document", msg + " (the document file was written by this run)")
     elif after[table_path][1] < after[doc_path][1]:
         # older than the data file and still used: not the known "validated by mtime only" weakness
         obs.violation("outdated-offset-table-kept", msg + " (the table is older than the document file)")
@@ -807,6 +825,8 @@ def run_case(case, obs):
             obs.cls(f"offset:{case['disk']['offset'][0]}")
         if case["disk"]["offset"][0] != "missing":
             obs.cls(f"offset-age:{case['disk']['offset_age']}")
+        if case.get("template"):
+            obs.cls(f"template:{case['template']}")
         for k in ("doc", "archive"):
             obs.cls(f"initial-{k}:{case['disk'][k][0]}")
         if case["disk"]["tmp"] is not None:
